@@ -60,6 +60,14 @@ def gen_cfg(rng):
         # towers inside the domain, different heights
         towers.append(dict(name="T%d" % k, lat=dom["ref_lat"] + float(rng.uniform(1e-4, 6e-4)), lon=dom["ref_lon"] + float(rng.uniform(1e-4, 8e-4)),
                            z_m=float(rng.uniform(2.5, 6.0))))
+    if rng.random() < 0.25:
+        # a tower exactly at the reference origin (x = y = 0.0), or due north / east of it (one coordinate exactly 0.0)
+        kk = int(rng.integers(ntw))
+        which = int(rng.integers(3))
+        if which in (0, 1):
+            towers[kk]["lon"] = dom["ref_lon"]
+        if which in (0, 2):
+            towers[kk]["lat"] = dom["ref_lat"]
     return dict(domain=dom, towers=towers, met=met, solver=sol), nstep
 
 
